@@ -122,6 +122,8 @@ impl MT204 {
             }
         }
 
+        crate::parser::utils::verify_parser_complete(&parser)?;
+
         Ok(MT204 {
             transaction_reference,
             sum_of_amounts,
